@@ -74,7 +74,7 @@ func less(a, b bfsItem) bool {
 }
 
 func runBFS(r *core.Run, depth int, env []string, crashed *[]string) bfsReport {
-	rep := bfsReport{AlphabetSize: len(alphabet), Configurations: len(allCfgs())}
+	rep := bfsReport{AlphabetSize: len(baseAlphabet), Configurations: len(allCfgs())}
 	dir := bfsDir()
 	frontier := make([]bfsItem, 0, len(allCfgs()))
 	for ci := range allCfgs() {
@@ -185,7 +185,7 @@ func runBFSWorker(r *core.Run, level int, in string) {
 		cfg := cfgs[it.C]
 		h := make([]int, len(it.H)+1)
 		copy(h, it.H)
-		for op := range alphabet {
+		for op := range baseAlphabet { // the one-call-per-request letters
 			h[len(it.H)] = op
 			housekeeping()
 			res := runHistory(cfg, h, l)
